@@ -508,7 +508,7 @@ var JavascriptTestValue interface{}
 // Currently the Javascript implementation is
 // https://github.com/robertkrimen/otto.  We might also eventually
 // support https://code.google.com/p/v8/ .
-func RunJavascript(ctx *Context, bs *Bindings, props map[string]interface{}, src interface{}) (interface{}, error) {
+func RunJavascript(ctx *Context, bs *Bindings, props map[string]interface{}, src interface{}) (result interface{}, problem error) {
 	timer := NewTimer(ctx, "RunJavascript")
 	defer timer.Stop()
 	Log(DEBUG, ctx, "core.RunJavascript", "code", src)
@@ -914,12 +914,17 @@ func RunJavascript(ctx *Context, bs *Bindings, props map[string]interface{}, src
 				if caught == Halt {
 					Log(WARN, ctx, "core.RunJavascript", "timedout", timeout,
 						"after", duration, "time", time.Now())
+					// A stopped script has failed; say so.
+					result = nil
+					problem = fmt.Errorf("Javascript execution timed out after %v", timeout)
 					return
 				}
 				panic(caught) // Something else happened, so repanic!
 			}
 		}()
-		watchdogCleanup := make(chan bool)
+		// Buffered: when the watchdog has fired it is no longer
+		// listening, and we must not block on telling it to stop.
+		watchdogCleanup := make(chan bool, 1)
 		runtime.Interrupt = make(chan func(), 1) // No blocking
 
 		defer func() {
